@@ -417,8 +417,11 @@ def run_history(case, tmp):
                 outs.append({"params": cv(dict(o.env.params)), "after_read": o.read_done})
             elif op == "materialize":
                 n = Obj(o.envs.materialize(), op, o)
-                n.read_done = True
-                o.read_done = True       # materialize() reads the parent's source completely
+                # materialize() forces a read unless the pipeline already ends with a cache (then it is returned as it is)
+                last = list(n.env)[-1]
+                forced = not any(q is last for q in list(o.env))
+                n.read_done = o.read_done or forced
+                o.read_done = o.read_done or forced       # the forced read goes through the parent's source
                 pool.append(n)
                 outs.append({"derived": op, "calls": watch.get("_calls", [None])[0]})
             elif op == "cache":
@@ -1061,19 +1064,49 @@ class Patches:
                 return getattr(self_._row, attr)
             for c in (pr.Dense, pr.Dense_, pr.Sparse, pr.Sparse_):
                 self._set(c, "__getattr__", ga)
-        if "F6" in self.ids:      # BinaryReward: state of a non-literal argmax (Categorical) must survive pickling
+        if "F6" in self.ids:      # reward functions: a state that is not a Python literal (Categorical, lazy rows, inf) must survive pickling
             import coba.primitives as pr
             from ast import literal_eval
 
-            def gs(self_):
-                return (self_._argmax,) if self_._value == 1 else (self_._argmax, self_._value)
+            def lit(x):
+                t = type(x)
+                if t is float:
+                    return x == x and x not in (float("inf"), float("-inf"))
+                if t in (int, str, bool, type(None)):
+                    return True
+                if t in (tuple, list):
+                    return all(map(lit, x))
+                if t is dict:
+                    return all(lit(k) and lit(v) for k, v in x.items())
+                return False
 
-            def ss(self_, args):
-                if isinstance(args, str):
-                    args = literal_eval(args)
+            def st(x):
+                return repr(x) if lit(x) else x
+
+            def un(x):
+                return literal_eval(x) if isinstance(x, str) else x
+
+            def b_gs(self_):
+                return st((self_._argmax,) if self_._value == 1 else (self_._argmax, self_._value))
+
+            def b_ss(self_, args):
+                args = un(args)
                 self_._argmax, self_._value = (args[0], 1) if len(args) == 1 else args
-            self._set(pr.BinaryReward, "__getstate__", gs)
-            self._set(pr.BinaryReward, "__setstate__", ss)
+
+            def h_gs(self_):
+                return st(self_._argmax)
+
+            def h_ss(self_, args):
+                self_._argmax = un(args)
+
+            def d_gs(self_):
+                return st((self_._state, self_._default))
+
+            def d_ss(self_, args):
+                self_._state, self_._default = un(args)
+            for cls, g, ss_ in ((pr.BinaryReward, b_gs, b_ss), (pr.HammingReward, h_gs, h_ss), (pr.DiscreteReward, d_gs, d_ss)):
+                self._set(cls, "__getstate__", g)
+                self._set(cls, "__setstate__", ss_)
         return self
 
     def _set(self, owner, name, value):
@@ -1101,7 +1134,7 @@ PATCH_SIG = {
     "F3": "F3-pickle-after-abandoned-read-of-cache",
     "F4": "F4-save-records-params-before-read",
     "F5": "F5-lazy-row-views-cannot-be-unpickled",
-    "F6": "F6-BinaryReward-categorical-argmax-cannot-be-unpickled",
+    "F6": "F6-reward-state-not-a-literal-cannot-be-unpickled",
 }
 
 
@@ -1142,11 +1175,14 @@ def monitor(case, tmp):
         if op == "full":
             nfull += 1
             if o["full"] != ref:
-                raw.append(("full-differs", diffkind(o["full"], ref), "history step %d: full read returned %d interactions, differing from the %d of a fresh read (%s)"
+                raw.append(("full-differs" if diffkind(o["full"], ref) != "regrouped" else "batches", diffkind(o["full"], ref), "history step %d: full read returned %d interactions, differing from the %d of a fresh read (%s)"
                             % (i, len(o["full"]), len(ref), diffkind(o["full"], ref))))
         elif op == "partial":
             if o["partial"] != ref[:len(o["partial"])] or (o["exhausted"] and len(o["partial"]) != len(ref)):
-                raw.append(("partial-differs", diffkind(o["partial"], ref[:len(o["partial"])]), "history step %d: abandoned read of %d items is not a prefix of a fresh read" % (i, len(o["partial"]))))
+                dk = diffkind(o["partial"], ref, prefix=True)
+                if dk != "regrouped":
+                    dk = diffkind(o["partial"], ref[:len(o["partial"])])
+                raw.append(("partial-differs" if dk != "regrouped" else "batches", dk, "history step %d: abandoned read of %d items is not a prefix of a fresh read" % (i, len(o["partial"]))))
         elif op == "params":
             if o["after_read"] and o["params"] != refp:
                 raw.append(("params-differ", pdiff(o["params"], refp), "history step %d: params after a completed read are %s, a fresh pipeline reports %s after its read"
@@ -1171,7 +1207,21 @@ def derive_always_fails(case, i, err, tmp):
     return bool(outs) and outs[-1].get("err") == err
 
 
-def diffkind(got, ref):
+def flat(seq):
+    out = []
+    for x in seq:
+        if isinstance(x, dict) and set(x) == {"batch"}:
+            out += x["batch"]
+        else:
+            out.append(x)
+    return out
+
+
+def diffkind(got, ref, prefix=False):
+    if any(isinstance(x, dict) and set(x) == {"batch"} for x in list(got) + list(ref)):
+        fg, fr = flat(got), flat(ref)
+        if (fg == fr[:len(fg)] if prefix else fg == fr):
+            return "regrouped"      # the same interactions in the same order, other batch boundaries
     if len(got) == 0 and len(ref) > 0:
         return "empty"
     if len(got) < len(ref):
@@ -1338,9 +1388,14 @@ def describe(case, tmp, nd, srcpost=None):
         cur, ids = out, oids
     # Finalize applied to its own output (objects written by save() are finalized again when they are loaded)
     try:
-        again = list(ef.BatchSafe(ef.Finalize()).filter(cur))
-        aids = I.items([cint(x) for x in again])
-        fin_table.append([ids, aids])
+        a_objs, a_ids = cur, ids
+        for _ in range(3):
+            again = list(ef.BatchSafe(ef.Finalize()).filter(a_objs))
+            aids = I.items([cint(x) for x in again])
+            fin_table.append([a_ids, aids])
+            if aids == a_ids:
+                break
+            a_objs, a_ids = again, aids
     except Exception:
         pass
     chain = case.get("chain", [])
